@@ -107,6 +107,14 @@ int32_t jls_rd_open(struct jls_rd_s ** instance, const char * path) {
         // find last full chunk and truncate remainder
         GOE(jls_raw_chunk_seek(core->raw, pos));
         GOE(jls_core_rd_chunk(core));
+        if ((core->chunk_cur.hdr.tag & JLS_TRACK_TAG_FLAG)
+                && ((core->chunk_cur.hdr.tag & 0x07) == JLS_TRACK_CHUNK_INDEX)) {
+            // an INDEX whose SUMMARY was never completed: the pair is written again by the repair below
+            GOE(jls_raw_chunk_seek(core->raw, pos));
+            GOE(jls_raw_chunk_prev(core->raw));
+            pos = jls_raw_chunk_tell(core->raw);
+            GOE(jls_core_rd_chunk(core));
+        }
         GOE(jls_bk_truncate(jls_raw_backend(core->raw)));
 
         // rewrite last full chunk to update payload_prev_length
